@@ -97,6 +97,10 @@ def cases(chk):
     for i in range(6 if quick else 40):
         n = rng.randrange(1, P) if i > 1 else (0 if i == 0 else 4)
         out.append(("jacobi", "jacobi-symbol", [D(n.to_bytes(32, "little"))]))
+    # a lone n whose bytes happen to read as script pushes (one push of 31 bytes; two pushes of 15 bytes)
+    out.append(("jacobi", "jacobi-symbol", [D(bytes([0x1f]) + rb(rng, 31))]))
+    out.append(("jacobi", "jacobi-symbol", [D(bytes([0x0f]) + rb(rng, 15) + bytes([0x0f]) + rb(rng, 15))]))
+    out.append(("jacobi", "jacobi-symbol", [D(bytes([0x01, 0x07, 0x1d]) + rb(rng, 29))]))
     out.append(("jacobi", "jacobi-symbol", [D((3).to_bytes(32, "little")), D((7).to_bytes(32, "little"))]))
     out.append(("jacobi", "jacobi-symbol", [D((10).to_bytes(32, "little")), D((21).to_bytes(32, "little"))]))
     # taproot tweak, Schnorr verification
